@@ -372,3 +372,51 @@ def lock_dataflow(g):
 
 def held_ids(state):
     return {t[0] for t in state}
+
+
+# ---------------------------------------------------------------------------
+# "own logic" of an entry point: robust against extract-helper refactorings
+# ---------------------------------------------------------------------------
+PROTOCOL_NAMES = {
+    "_load", "_save", "_load_from_resource", "_save_to_resource", "_load_from_buffer", "_save_to_buffer", "_update",
+    "_validate", "_from_base", "_to_base", "_flush", "_flush_buffer", "_initialize_data_in_buffer", "__enter__", "__exit__",
+    "_get_file_metadata", "set_buffer_capacity", "get_buffer_capacity", "_encode", "_decode", "_hash", "_is_buffered",
+    "_thread_lock", "_buffer_lock", "_lock_id", "__init__", "is_base_type",
+}
+
+
+def _is_helper_frame(q):
+    name = q.split(".")[-1]
+    if name in PROTOCOL_NAMES or name in READ_API or name in MUT_API:
+        return False
+    return name.startswith("_") and not (name.startswith("__") and name.endswith("__"))
+
+
+def own_stack(stack):
+    """True if the activation stack is the entry function itself, possibly
+    followed only by private helper functions called on the same receiver
+    (an 'extract method' refactoring must not move code out of a rule's view)."""
+    if not stack:
+        return False
+    r0 = stack[0][1]
+    n0 = stack[0][0].split(".")[-1]
+    for q, r in stack[1:]:
+        if q.split(".")[-1] == n0 and r == r0:
+            continue  # super() delegation of the entry method itself
+        if not _is_helper_frame(q):
+            return False
+        if r not in (r0, ""):
+            # helpers on the class of the receiver (classmethods) are fine as well
+            if not (r.startswith("type<") and r0.startswith("<")) and not (r0.startswith("type<") and r.startswith("type<")):
+                return False
+    return True
+
+
+def own(n):
+    return own_stack(n.stack)
+
+
+def own_child(n):
+    """The node is the direct activation record of a call made from the entry's own logic
+    (stack = own prefix + one more frame)."""
+    return len(n.stack) >= 2 and own_stack(n.stack[:-1])
